@@ -1,5 +1,5 @@
 #!/usr/bin/env python3
-"""tools/seeds_scratch.py [--threads T] [pattern]
+"""tools/seeds_scratch.py [--threads T] [--scratch DIR] [pattern]
 Regression of every seeded change (/verif/seeded/<id>/patch.diff) WITHOUT touching /repo: a scratch
 worktree of /repo and a scratch copy of the simulator pointed at it (same set-up as automutate.py).
 For each seed: apply, rebuild, quick check of its property (stop at the first violation), replay the
@@ -12,8 +12,11 @@ args = sys.argv[1:]
 threads = '16'
 if '--threads' in args:
     i = args.index('--threads'); threads = args[i + 1]; del args[i:i + 2]
+scratch = '/tmp/sr'
+if '--scratch' in args:
+    i = args.index('--scratch'); scratch = args[i + 1]; del args[i:i + 2]
 pat = [a for a in args if not a.startswith('--')]
-am.SCRATCH = '/tmp/sr'
+am.SCRATCH = scratch   # several instances may run side by side, each with its own scratch directory
 os.makedirs(am.SCRATCH, exist_ok=True)
 d = am.setup_slot(0)
 rows = []
@@ -53,6 +56,8 @@ if not pat:
         for r in rows: f.write('\t'.join(str(x) for x in r) + '\n')
 else:
     # a partial re-run replaces the rows of the seeds it covered
+    import fcntl
+    lock = open('/verif/seeded/.results.lock', 'w'); fcntl.flock(lock, fcntl.LOCK_EX)
     old = {}
     try:
         for l in open('/verif/seeded/RESULTS.tsv'):
